@@ -425,3 +425,16 @@ package mvp6_3
 //@   assigns u.l3.lines
 //@   loop 0: invariant wfMMU(u) && u.l3 == old(u.l3) && len(u.l3.lines) == len(old(u.l3.lines))
 // ---- END generated by gen_l3.py
+
+// (C04; F39) an instruction reads its operands - and a load its base register -
+// from the rename table AS OF ITS OWN POSITION in program order: the execute
+// unit hands its own sequence number to MemoryRead and to Run (sequence 0 means
+// "the newest value", that of a possibly YOUNGER renamed writer: a
+// write-after-read violation when the reader was delayed). The only clauses
+// checked on these bodies (havoc contracts: their closures are outside the subset).
+//@ func (*executeUnit).prepareRun
+//@   havoc
+//@   assert-before InstructionRunner.MemoryRead: arg1 == u.runner.SequenceID
+//@ func (*executeUnit).run
+//@   havoc
+//@   assert-before InstructionRunner.Run: arg4 == u.runner.SequenceID
